@@ -19,6 +19,11 @@ pub enum Event {
         /// Zero-based pass number
         cycle: usize,
     },
+    /// The forward engine's agenda manager made `group` the focused agenda group.
+    AgendaFocus {
+        /// The group that now has the focus
+        group: String,
+    },
 }
 
 thread_local! {
